@@ -234,12 +234,36 @@ def run_random(spec, acc, api):
             acc.sample({'value': refval.canon(v), 'indent': indent})
 
 
+def state_check(spec, acc, api):
+    """No state between calls: serialise + parse the same values in a fresh process in reversed order."""
+    from .. import core
+    lib, value_json = api
+    rnd = random.Random(spec['seed'] * 7919 + 137)
+    vals = [rand_value(rnd, rnd.randint(0, 4)) for _ in range(1500)]
+    vals += [[s] for s in NUMLIKE] + [{'k': s} for s in NUMLIKE] + [1.0, 1, -0.0, 0, [1.0], [1], {'a': 1.0}, {'a': 1}]
+    warm = []
+    for v in vals:
+        t = value_json(v)
+        warm.append(['ok', t, refval.enc(lib['jsonParse']([t], None))])
+    cold = core.cold_reversed('json_roundtrip', [refval.enc(v) for v in vals], spec['seed'])
+    if cold is None:
+        acc.note_inconclusive('cold child process for the state check failed')
+        return
+    for v, a, b in zip(vals, warm, cold):
+        acc.count('cold_vs_warm_comparisons')
+        if a != b:
+            acc.violation('json-depends-on-earlier-calls', f'{v!r:.200}: {a!r:.300} in this process, {b!r:.300} in a fresh process (reversed order)', {'value': refval.enc(v), 'indent': None})
+            return
+
+
 def run_shard(spec, acc):
     api = _api()
     if spec['part'] == 'exhaustive':
         run_exhaustive(spec, acc, api)
     else:
         run_random(spec, acc, api)
+        if spec['shard'] == 0:
+            state_check(spec, acc, api)
 
 
 def replay(spec, acc):
